@@ -48,7 +48,9 @@ TRUSTED = vplib.BASE_TRUSTED + [
 
 POOL_FIXED = ["5", "5 + 6", "( )", "", "{ $ + 1 } <~ 5", "1 ?> 2 |> 3", "a && b", "{ 5 }", "1 2 3", "5 ~> { $ * 2 }", "{ { $ + 1 } <~ $ } <~ 1",
               "$ < 3 ?> ^~ $ + 1 |> $", "\"s\" 'b' :s", "5 [6] 7", "(1 ?> 2) + (3 ?> 4 |> 5)", "{ ( ) }", "$! ?> 1 |> $! ?> 2", "1 |> 2",
-              "{ $ < 2 ?> ^~ $ + 1 |> $ } <~ 0", ":a = 1, :b = 2", "(:a = 1).a", "`f 5", "1 ; 2", "{ 1 } ~~"]
+              "{ $ < 2 ?> ^~ $ + 1 |> $ } <~ 0", ":a = 1, :b = 2", "(:a = 1).a", "`f 5", "1 ; 2", "{ 1 } ~~",
+              # text conversions that fail half-way or succeed, and plain text constants (scratch buffers of the data object)
+              "(7 (5 ~ 2)) ~# \"\"", "(1 2) ~# \"\"", "(1 ('a' ~ 2)) ~# ''", "\"abc\"", "'xyz'", "(1 2 :s) ~# \"\""]
 
 
 def scripts_for(order, rng, how):
